@@ -42,6 +42,7 @@ class C05(Config):
         "the threshold of 100 outputs), not proved: task interleavings are runtime behaviour outside the model",
         "correctness of real trial decryption is the external crates'; the model takes it as an oracle and the correspondence "
         "compares the real decryption against the generator's ground truth",
+        "the bridge (C05_bridge / C05_scan_correct) makes agreement with the model imply the property for the inline path; for the batched path Batched.v proves that the result is a function of the per-(block hash, txid) decryption results for every arrival order and map layout under pairwise distinct keys, but rayon scheduling itself and BatchRunner's channel plumbing are tied to that model only by sampling",
         "for blocks with several simultaneous defects the batched path may report a different error than the inline path "
         "(add_block validates every output of every block before continuity is checked); only 'rejected' is compared there",
     ]
